@@ -26,6 +26,7 @@ PROP = dict(
                 "nature); crash points of the circuit map are covered because every mutating call is one "
                 "atomic bbolt transaction and a restart is generated between any two calls."),
     assumptions=[
+        "restarted open channels come in four flavours (regular, scid-alias, zero-conf unconfirmed, zero-conf confirmed with a different real scid); the links key their keystones by OpenChannel.ShortChanID() in all of them, so the model makes no distinction",
         "TrimOpenCircuits caller contract (documented in the function): keystones at or above the "
         "channel's next unallocated htlc index form a gap-free run; generated indexes are adjusted upwards "
         "to the next value that satisfies it (label start_adjusted)",
